@@ -26,7 +26,7 @@ def do_import(ids):
                 print(pid, "no output dir")
                 continue
             notes = open(os.path.join(src, "notes.md")).read() if os.path.exists(os.path.join(src, "notes.md")) else ""
-            for which in "ABCDEFGH":
+            for which in "ABCDEFGHIJ":
                 patch = os.path.join(src, f"{which}.patch")
                 if not os.path.exists(patch):
                     continue
@@ -44,7 +44,7 @@ def do_import(ids):
                 dst = os.path.join(ROOT, "seeded", "benign", f"{pid}-{which}")
                 os.makedirs(dst, exist_ok=True)
                 shutil.copy(patch, os.path.join(dst, "patch.diff"))
-                m = re.split(r"(?im)^#+\s*(?:change\s*)?([A-H])\b.*$", notes)
+                m = re.split(r"(?im)^#+\s*(?:change\s*)?([A-J])\b.*$", notes)
                 sect = next((m[i + 1].strip() for i in range(1, len(m) - 1, 2) if m[i].upper() == which), notes)[:3000]
                 json.dump({"id": f"{pid}-{which}", "property": pid, "kind": "property-preserving refactor (false-alarm test)",
                            "author_argument": sect, "suites_green_with_change": True}, open(os.path.join(dst, "meta.json"), "w"), indent=1)
